@@ -1,6 +1,8 @@
 package vsched
 
 import (
+	"fmt"
+	"sort"
 	"sync"
 	"sync/atomic"
 	"unsafe"
@@ -67,18 +69,27 @@ func (m *Mutex) TryLock() bool {
 	return got
 }
 
-// RWMutex replaces sync.RWMutex (writer preference is not modelled: a superset of behaviours).
+// RWMutex replaces sync.RWMutex. As in the runtime, a writer that has ANNOUNCED itself blocks new
+// readers while it still waits for the readers that are inside: Lock is "take the writers' mutex
+// and announce" (enabled iff no other writer has done so) followed, when readers are inside, by
+// "acquire" (enabled iff they have all left). Without this a pending writer was invisible: a
+// second RLock of the same thread, or a reader that waits for another reader, could never deadlock
+// in the model although it does in Go.
+// Not modelled: the few instructions between rw.w.Lock() and the announcement (and between the
+// release of the readers and rw.w.Unlock()), during which TryLock fails while readers may still
+// enter; the generation of readers released by Unlock counts as inside only once each of them runs.
 type RWMutex struct {
-	real    sync.RWMutex
-	readers int
-	writer  bool
-	h       uint64
-	ep      uint64
+	real      sync.RWMutex
+	readers   int  // readers inside
+	announced bool // a writer holds the writers' mutex and has announced itself: new readers wait
+	writer    bool // ... and is inside
+	h         uint64
+	ep        uint64
 }
 
 func (m *RWMutex) fresh(e *Exec) {
 	if m.ep != e.id {
-		m.ep, m.readers, m.writer, m.h = e.id, 0, false, 0
+		m.ep, m.readers, m.announced, m.writer, m.h = e.id, 0, false, false, 0
 	}
 }
 
@@ -89,7 +100,30 @@ func (m *RWMutex) Lock() {
 		return
 	}
 	m.fresh(e)
-	e.point(t, &op{desc: "rwmutex.lock", chosen: -2, objs: []*uint64{&m.h}, enabled: func() bool { return !m.writer && m.readers == 0 }, exec: func() { m.writer = true }})
+	inside := false
+	e.point(t, &op{desc: "rwmutex.lock", chosen: -2, objs: []*uint64{&m.h}, enabled: func() bool { return !m.announced }, exec: func() {
+		m.announced = true
+		inside = m.readers == 0
+		m.writer = inside
+	}})
+	if !inside {
+		e.point(t, &op{desc: "rwmutex.lock.acquire", chosen: -2, objs: []*uint64{&m.h}, enabled: func() bool { return m.readers == 0 }, exec: func() { m.writer = true }})
+	}
+}
+
+func (m *RWMutex) TryLock() bool {
+	e, t := managed()
+	if t == nil {
+		return m.real.TryLock()
+	}
+	m.fresh(e)
+	got := false
+	e.point(t, &op{desc: "rwmutex.trylock", chosen: -2, objs: []*uint64{&m.h}, enabled: alwaysTrue, exec: func() {
+		if !m.announced && m.readers == 0 {
+			m.announced, m.writer, got = true, true, true
+		}
+	}})
+	return got
 }
 
 func (m *RWMutex) Unlock() {
@@ -103,8 +137,9 @@ func (m *RWMutex) Unlock() {
 	e.point(t, &op{desc: "rwmutex.unlock", chosen: -2, objs: []*uint64{&m.h}, enabled: alwaysTrue, exec: func() {
 		if !m.writer {
 			bad = true
+			return
 		}
-		m.writer = false
+		m.writer, m.announced = false, false
 	}})
 	if bad {
 		panic("sync: Unlock of unlocked RWMutex")
@@ -118,7 +153,23 @@ func (m *RWMutex) RLock() {
 		return
 	}
 	m.fresh(e)
-	e.point(t, &op{desc: "rwmutex.rlock", chosen: -2, objs: []*uint64{&m.h}, enabled: func() bool { return !m.writer }, exec: func() { m.readers++ }})
+	e.point(t, &op{desc: "rwmutex.rlock", chosen: -2, objs: []*uint64{&m.h}, enabled: func() bool { return !m.announced }, exec: func() { m.readers++ }})
+}
+
+func (m *RWMutex) TryRLock() bool {
+	e, t := managed()
+	if t == nil {
+		return m.real.TryRLock()
+	}
+	m.fresh(e)
+	got := false
+	e.point(t, &op{desc: "rwmutex.tryrlock", chosen: -2, objs: []*uint64{&m.h}, enabled: alwaysTrue, exec: func() {
+		if !m.announced {
+			m.readers++
+			got = true
+		}
+	}})
+	return got
 }
 
 func (m *RWMutex) RUnlock() {
@@ -260,11 +311,14 @@ func (c *Cond) Wait() {
 		return
 	}
 	c.fresh(e)
-	// enqueue, then unlock (nobody can signal in between: the caller holds L), then block
-	e.mu.Lock()
-	t.condOK = false
-	c.waiters = append(c.waiters, t)
-	e.mu.Unlock()
+	// take the ticket (a step of its own, as runtime_notifyListAdd is: Signal and Broadcast do not
+	// need L, so one may fall between whatever the caller did last and the registration — glued to
+	// the caller's previous operation the registration hid exactly that lost wake-up), then unlock,
+	// then block
+	e.simple(t, "cond.wait.add", func() {
+		t.condOK = false
+		c.waiters = append(c.waiters, t)
+	}, &c.h)
 	c.L.Unlock()
 	e.point(t, &op{desc: "cond.wait", chosen: -2, objs: []*uint64{&c.h}, enabled: func() bool { return t.condOK }, exec: func() {}})
 	c.L.Lock()
@@ -617,7 +671,57 @@ func (m *Map) CompareAndDelete(key, old any) (deleted bool) {
 	m.pt("syncmap.cad", func() { deleted = m.real.CompareAndDelete(key, old) })
 	return
 }
+// Range is not a snapshot of the contents (sync.Map: "Range does not necessarily correspond to any
+// consistent snapshot"): the runtime fixes the SET OF KEYS when Range starts and reads each key's
+// current value when it gets there (a key deleted meanwhile is skipped, a new value stored
+// meanwhile is seen, a key stored meanwhile is not), in an unspecified order. One scheduling point
+// for the key set and one before each visit. The visiting order is an explorer choice (Choose)
+// while at most rangeOrderMax keys remain, and the order of the keys' printed forms beyond that
+// (n! orders otherwise) — deterministic in both cases, unlike the iteration order of the real map.
+const rangeOrderMax = 3
+
 func (m *Map) Range(f func(key, value any) bool) {
-	m.pt("syncmap.range", nil)
-	m.real.Range(f)
+	e, t := managed()
+	if t == nil {
+		m.real.Range(f)
+		return
+	}
+	var keys []any
+	e.simple(t, "syncmap.range", func() {
+		m.real.Range(func(k, _ any) bool { keys = append(keys, k); return true })
+	}, &m.h)
+	ks := make([]string, len(keys))
+	for i, k := range keys {
+		ks[i] = fmt.Sprintf("%T:%v", k, k)
+	}
+	sort.Sort(&keySort{keys, ks})
+	for len(keys) > 0 {
+		i := 0
+		if len(keys) <= rangeOrderMax {
+			i = Choose(len(keys))
+		}
+		k := keys[i]
+		keys = append(keys[:i:i], keys[i+1:]...)
+		var v any
+		var ok bool
+		e.simple(t, "syncmap.range.next", func() { v, ok = m.real.Load(k) }, &m.h)
+		if !ok {
+			continue
+		}
+		if !f(k, v) {
+			break
+		}
+	}
 }
+
+type keySort struct {
+	k []any
+	s []string
+}
+
+func (x *keySort) Len() int           { return len(x.k) }
+func (x *keySort) Less(i, j int) bool { return x.s[i] < x.s[j] }
+func (x *keySort) Swap(i, j int)      { x.k[i], x.k[j] = x.k[j], x.k[i]; x.s[i], x.s[j] = x.s[j], x.s[i] }
+
+// Clear: sync.Map.Clear (go 1.23) was missing from the shim (rewritten code calling it did not build).
+func (m *Map) Clear() { m.pt("syncmap.clear", func() { m.real.Clear() }) }
